@@ -81,6 +81,15 @@ def run(repo: Repo, rep: Report, tier: str) -> None:
     for name, operand in (("bundle_arithmetic", "operand"), ("bundle_decider", "compare_value"), ("bundle_gating_decider", "left")):
         m = b.methods[name]
         flags = [n for n in walk_local(m.node) if isinstance(n, ast.Assign) and "needs_wire_separation" in norm(n.targets[0]) and norm(n.value) == "True"]
+        if name == "bundle_gating_decider":
+            # the condition is `left OP right`; either side may be the signal (`(3 == k) : b`), so the decision has to look at both
+            gtxt = [t for t, pol in cguards(m, flags[0]) if pol and "SignalRef" in t] if flags else []
+            names_read = {x.id for t in gtxt for x in ast.walk(ast.parse(t, mode="eval")) if isinstance(x, ast.Name)}
+            ok = bool(flags) and {"left", "right"} <= names_read
+            rep.check(ok, "C02-R2", f"{name} flags wire separation when either side of the condition is a signal", (gtxt[0][:90] if gtxt else "") if ok else
+                      (f"decided on {sorted(names_read & {'left', 'right'})} only: with the signal on the other side (`(3 == k) : b`) the condition signal shares the bundle's wire and is "
+                       "passed through with it" if flags else "flag never set"), m.loc(flags[0]) if flags else m.loc())
+            continue
         ok = bool(flags) and any(t == f"isinstance({operand}, SignalRef)" and pol for t, pol in cguards_any(m, flags[0]))
         rep.check(ok, "C02-R2", f"{name} flags wire separation when `{operand}` is a signal", norm(flags[0]) if flags else "flag never set", m.loc())
     ep = repo.cls("EntityPlacer")
@@ -105,6 +114,14 @@ def run(repo: Repo, rep: Report, tier: str) -> None:
         for t, pol in gs:
             if pol and ".entity_type ==" in t:
                 kinds[t.split("==")[1].strip().strip("'")] = n
+    # a separated decider comes in two forms — gating (condition scalar, bundle as output value) and filtering (each CMP scalar): both need a lock
+    dec_locks = [n for n in locks if any("needs_wire_separation" in t and pol for t, pol in cguards(dl, n)) and any(pol and ".entity_type == 'decider-combinator'" in t for t, pol in cguards(dl, n))]
+    cdl = canon(dl)
+    forms = {"gating (bundle is the output value)": "output_value_signal_id", "filter (scalar is the right operand)": "right_operand_signal_id"}
+    for form, key in forms.items():
+        hit = [n for n in dec_locks if key in cdl.text(n.targets[0].slice)]
+        rep.check(bool(hit), "C02-R2", f"planner separates the inputs of a decider in {form.split(' ')[0]} form", f"lock keyed by {key}" if hit else
+                  f"no lock derived from `{key}`: for `(b >= k) : 1` the scalar k stays on the bundle's wire, `each` sees it and it appears in the result", dl.loc(hit[0]) if hit else dl.loc())
     for kind in ("arithmetic-combinator", "decider-combinator"):
         n = kinds.get(kind)
         ok = n is not None and n.value.value != default and n.value.value in WC
